@@ -22,7 +22,7 @@ from ..seq import Layouts, UNKNOWN, show
 
 FLOORS = {"pair-append": 5, "append-provenance": 4, "init-pair": 3, "exchange-pair": 3,
           "replace-last": 2, "mode": 3, "ownership": 6, "walker-pair": 1, "ensemble-append": 1,
-          "store-integrity": 2, "store-owns-data": 2}
+          "store-integrity": 2, "store-owns-data": 2, "store-writers": 8}
 
 
 def run(prog, tier):
@@ -198,6 +198,9 @@ def run(prog, tier):
             msg = f"recorded {_unelem(root)[1]} is mutated in place at {c.module.relpath}:{line} in {f.name}: `{text}`"
         obs.append(struct_ob("store-integrity", f"{ci.module.name}.{cname}", not hits, msg, ci.module.relpath,
                              hits[0][3] if hits else ci.node.lineno, slots={"stores": repr(st)}))
+
+    # ------------------------------------------------------------ who may write the stores
+    obs.extend(_store_writers(prog, stores))
 
     meta = {
         "explanation": "Path/event enumeration of every step function (loops unrolled, break/continue/for-else honoured): "
@@ -513,4 +516,159 @@ def ownership_obligations(prog, own, ci, ctor="__init__"):
                              hits[0][2] if hits else fn.lineno, detail=f"param {p}",
                              slots={"param": p, "aliased_by": aliases, "sinks": [h[3] for h in hits][:4]},
                              nontrivial=bool(aliases)))
+    return out
+
+
+# ---------------------------------------------------------------------------------------------- who may write the stores
+_MUTATORS = {"append", "extend", "insert", "pop", "remove", "clear", "sort", "reverse", "__setitem__", "__delitem__", "fill", "put", "resize"}
+
+
+def _direct_store_writes(fn, attrs):
+    """[(attr, lineno, text)]: rebinding, item store / delete, augmented assignment and in-place method calls, inside `fn`, on any
+    object's attribute whose name is in `attrs` (also through a local name bound to such an attribute)."""
+    alias = {}
+    for n in ast.walk(fn):
+        if isinstance(n, ast.Assign) and isinstance(n.value, ast.Attribute) and n.value.attr in attrs:
+            for t in n.targets:
+                if isinstance(t, ast.Name):
+                    alias[t.id] = n.value.attr
+
+    def base(e, strip_needed):
+        k = 0
+        while isinstance(e, ast.Subscript):
+            e = e.value
+            k += 1
+        if isinstance(e, ast.Attribute) and e.attr in attrs:
+            return e.attr
+        if isinstance(e, ast.Name) and e.id in alias and (k > 0 or not strip_needed):
+            return alias[e.id]
+        return None
+    out = []
+    for n in ast.walk(fn):
+        tgts = []
+        if isinstance(n, ast.Assign):
+            for t in n.targets:
+                tgts.extend(t.elts if isinstance(t, (ast.Tuple, ast.List)) else [t])
+        elif isinstance(n, (ast.AugAssign, ast.AnnAssign)):
+            tgts = [n.target]
+        elif isinstance(n, ast.Delete):
+            tgts = list(n.targets)
+        for t in tgts:
+            a = base(t, strip_needed=not isinstance(n, ast.AugAssign))
+            if a is not None:
+                out.append((a, n.lineno, U(n)[:120]))
+        if isinstance(n, ast.Call) and isinstance(n.func, ast.Attribute) and n.func.attr in _MUTATORS:
+            a = base(n.func.value, strip_needed=False)
+            if a is not None:
+                out.append((a, n.lineno, U(n)[:120]))
+    return out
+
+
+def _store_writers(prog, stores):
+    """Every function of the sampler package that changes a sample store without changing the probability store (or the other way
+    round) must be a helper: it has callers, and every chain of callers reaches a function that changes both.  A public entry point
+    that rewrites recorded samples alone leaves log-probabilities that belong to points no longer in the chain."""
+    s_attrs = {st.S[1] if st.kind == "params" else st.S for st in stores.values()}
+    p_attrs = {st.P for st in stores.values()}
+    attrs = s_attrs | p_attrs
+    funcs = {}        # key -> (ClassInfo | None, FunctionDef, ModuleInfo)
+    by_name = {}
+    for mname, mi in prog.modules.items():
+        if not mname.startswith("inference.mcmc"):
+            continue
+        for ci in mi.classes.values():
+            for name, fn in ci.methods.items():
+                funcs[(ci.name, name)] = (ci, fn, mi)
+                by_name.setdefault(name, []).append((ci.name, name))
+        for name, fn in mi.functions.items():
+            funcs[(None, name)] = (None, fn, mi)
+            by_name.setdefault(name, []).append((None, name))
+    direct = {k: _direct_store_writes(v[1], attrs) for k, v in funcs.items()}
+
+    def init_of(cname):
+        ci = prog.classes.get(cname)
+        if ci is None:
+            return []
+        c, f = prog.find_method(ci, "__init__")
+        return [(c.name, "__init__")] if f is not None else []
+    calls = {k: set() for k in funcs}
+    for k, (ci, fn, mi) in funcs.items():
+        for n in ast.walk(fn):
+            if not isinstance(n, ast.Call):
+                continue
+            f = n.func
+            if isinstance(f, ast.Name):
+                if f.id in prog.classes:
+                    calls[k].update(init_of(f.id))
+                elif (None, f.id) in funcs:
+                    calls[k].add((None, f.id))
+            elif isinstance(f, ast.Attribute):
+                if f.attr == "__init__":
+                    if ci is not None:
+                        for b in ci.base_names:
+                            calls[k].update(init_of(b))
+                    continue
+                if isinstance(f.value, ast.Name) and f.value.id in prog.classes:
+                    c2, f2 = prog.find_method(prog.classes[f.value.id], f.attr)
+                    if f2 is not None:
+                        calls[k].add((c2.name, f.attr))
+                        continue
+                if isinstance(f.value, ast.Name) and f.value.id == "cls" and ci is not None:
+                    c2, f2 = prog.find_method(ci, f.attr)
+                    if f2 is not None:
+                        calls[k].add((c2.name, f.attr))
+                        continue
+                calls[k].update(x for x in by_name.get(f.attr, []) if x[0] is not None)
+        # functions handed over as values (process targets, bound methods stored in slots)
+        for n in ast.walk(fn):
+            if isinstance(n, ast.keyword) and n.arg == "target" and isinstance(n.value, ast.Name) and (None, n.value.id) in funcs:
+                calls[k].add((None, n.value.id))
+    callers = {k: set() for k in funcs}
+    for k, cs in calls.items():
+        for c in cs:
+            if c in callers and c != k:
+                callers[c].add(k)
+    eff = {k: {("S" if a in s_attrs else "P") for a, _, _ in direct[k]} for k in funcs}
+    changed = True
+    while changed:
+        changed = False
+        for k in funcs:
+            for c in calls[k]:
+                if c in eff and not eff[c] <= eff[k]:
+                    eff[k] |= eff[c]
+                    changed = True
+    out = []
+    for k in sorted(funcs, key=lambda k: (str(k[0]), k[1])):
+        if not direct[k]:
+            continue
+        ci, fn, mi = funcs[k]
+        # walk up from a one-sided writer: every maximal chain of callers must reach a function whose effect has both sides
+        bad = None
+        if len(eff[k]) == 1:
+            seen, todo = {k}, [(k, [k])]
+            while todo and bad is None:
+                cur, chain = todo.pop()
+                if len(eff[cur]) == 2:
+                    continue
+                if not callers[cur]:
+                    bad = chain
+                    break
+                for g in callers[cur]:
+                    if g not in seen:
+                        seen.add(g)
+                        todo.append((g, chain + [g]))
+        side = {"S": "recorded samples", "P": "recorded log-probabilities"}
+        msg = ""
+        if bad is not None:
+            only = next(iter(eff[k]))
+            a, line, text = direct[k][0]
+            top = bad[-1]
+            msg = (f"`{text}` (line {line}) changes the {side[only]} and nothing on the call chain "
+                   f"{' <- '.join((str(x[0]) + '.' if x[0] else '') + x[1] for x in bad)} changes the "
+                   f"{side['P' if only == 'S' else 'S']}: entry point {(str(top[0]) + '.' if top[0] else '') + top[1]} leaves a "
+                   f"log-probability that is not the density of the sample stored at the same index")
+        out.append(struct_ob("store-writers", (f"{mi.name}.{k[0]}.{k[1]}" if k[0] else f"{mi.name}.{k[1]}"), bad is None, msg,
+                             mi.relpath, direct[k][0][1], slots={"writes": sorted({a for a, _, _ in direct[k]}), "effect": sorted(eff[k]),
+                                                               "callers": sorted((str(x[0]) + "." if x[0] else "") + x[1] for x in callers[k])[:8]},
+                             tier="E"))
     return out
